@@ -170,6 +170,12 @@ func (x *c03Interp) commaOk(fr *c03Frame, st *c03State, rhs ast.Expr) ([]c03ELV,
 		}
 		var out []c03ELV
 		for _, o := range x.evalList(fr, st, []ast.Expr{r.X, r.Index}) {
+			if forks := x.mapLookupForks(o.st, o.vs[0], o.vs[1], info.TypeOf(r)); forks != nil {
+				for _, f := range forks {
+					out = append(out, c03ELV{f.st, []*c03V{f.v, {K: c03KBool, Bool: f.found, T: types.Typ[types.Bool]}}})
+				}
+				continue
+			}
 			if hit, known := c03MapLookup(o.vs[0], o.vs[1]); known {
 				okV := &c03V{K: c03KBool, Bool: hit != nil, T: types.Typ[types.Bool]}
 				if hit == nil {
